@@ -70,13 +70,21 @@ def features_of(project):
 
 def gen_case(ch: Chooser, excl=()):
     proj, g = gen.gen_project(ch, dict(CFG, excl=tuple(excl)))
+    upper = False
+    if "upper_ext" not in excl:
+        # free-form sources under the upper-case extensions FORD documents (F90, F95, F03, F08): with preprocessing
+        # off they are read as they are
+        for f in proj["files"]:
+            if f["path"].endswith(".f90") and ch.bool(1, 6):
+                f["path"] = f["path"][:-4] + ch.choice([".F90", ".F95", ".F03", ".F08", ".f95", ".f03", ".f08"])
+                upper = True
     files1, used1 = render.render_project(proj, ch)
     files2, used2 = render.render_project(proj, ch)
     kinds, rich, nested = features_of(proj)
     ndiff = sum(1 for k in set(used1) | set(used2) if used1.get(k) != used2.get(k))
     return {
         "files": files1, "files2": files2, "expected": model.canon_project(proj),
-        "classes": sorted(kinds) + sorted(f"sty:{k}" for k in set(used1) | set(used2)),
+        "classes": sorted(kinds) + sorted(f"sty:{k}" for k in set(used1) | set(used2)) + (["ext:other"] if upper else []),
         "nontrivial": bool(rich and nested and ndiff >= 3),
     }
 
@@ -115,6 +123,8 @@ def check(case) -> Result:
         trees.append(tree)
         if key == "files":
             for sig, msg in model.diff(case["expected"], tree):
+                if sig.endswith(":missing-field") and msg.startswith(": field"):
+                    sig = "source-file:missing"         # (one signature, whatever the file is called)
                 res.fail("ref:" + sig, msg)
         # skipped-file diagnostics: every generated file must have been parsed
         missing = sorted(set(files) - set(tree))
